@@ -287,13 +287,17 @@ pub const SOURCE_REL_FIELDS: [&str; 6] = ["Build-Depends", "Build-Depends-Indep"
 pub const BINARY_REL_FIELDS: [&str; 10] = ["Pre-Depends", "Depends", "Recommends", "Suggests", "Enhances", "Breaks", "Conflicts", "Provides", "Replaces", "Built-Using"];
 
 /// The same normal form must come out when the field sits in a control file and the file, or its paragraph, is reformatted.
-fn check_c13_control(text: &str, expected: &str) -> Vec<Viol> {
+fn check_c13_control(text: &str, expected: &str, few_fields: bool) -> Vec<Viol> {
     use debian_control::lossless::control::Control;
     use deb822_lossless::Indentation;
     let mut out = vec![];
     let folded = text.replace('\n', "\n ");
     for (fi, field) in SOURCE_REL_FIELDS.iter().chain(BINARY_REL_FIELDS.iter()).enumerate() {
         let in_source = fi < SOURCE_REL_FIELDS.len();
+        // (the many-part relations with a line break inside a list: one source and one binary field)
+        if few_fields && fi != 0 && fi != SOURCE_REL_FIELDS.len() {
+            continue;
+        }
         let doc = if in_source {
             format!("Source: s\n{}: {}\nMaintainer: m\n\nPackage: p\nArchitecture: any\n", field, folded)
         } else {
@@ -338,6 +342,22 @@ fn check_c13_control(text: &str, expected: &str) -> Vec<Viol> {
 
 fn check_c13(text: &str, model: &MField, subst: bool, through_control: bool) -> Vec<Viol> {
     let mut out = vec![];
+    // a field of many deviations goes through the control wrappers too when a line break stands inside a list (in a control
+    // file the break is then the only separator between two items), under one source and one binary field name
+    let through_control_few = !through_control && text.contains('\n') && {
+        let mut depth = 0i32;
+        let mut hit = false;
+        for ch in text.chars() {
+            match ch {
+                '[' | '<' if !hit => depth += 1,
+                ']' | '>' => depth -= 1,
+                '\n' if depth > 0 => hit = true,
+                _ => {}
+            }
+        }
+        hit
+    };
+    let through_control = through_control || through_control_few;
     let (r, errs) = ll::Relations::parse_relaxed(text, subst);
     if !errs.is_empty() {
         return out; // C10's business
@@ -424,7 +444,7 @@ fn check_c13(text: &str, model: &MField, subst: bool, through_control: bool) -> 
     if through_control && out.is_empty() {
         // control files always allow substitution variables
         let expected = ll::Relations::parse_relaxed(text, true).0.wrap_and_sort().to_string();
-        out.extend(check_c13_control(text, &expected));
+        out.extend(check_c13_control(text, &expected, through_control_few));
     }
     out
 }
